@@ -74,7 +74,15 @@ def pinned(tier):
 
 
 def gen(rng, tier, k):
-    cls = rng.choice(["mixed_metronome_measure_lines", "const4_anywhere", "const4_anywhere", "const_other", "single", "snapper_only"])
+    cls = rng.choice(["mixed_metronome_measure_lines", "const4_anywhere", "const4_anywhere", "const_other", "single", "snapper_only", "ms_based_off_grid"])
+    if cls == "ms_based_off_grid":
+        n = rng.randint(2, 7)
+        t = rng.choice([0.0, -300.0, 1234.5])
+        pts = []
+        for _ in range(n):
+            pts.append([t, gen_bpm(rng)])
+            t += rng.choice([500.0, 2000.0, 4000.0]) * rng.randint(1, 4) + rng.choice([0.0, 1.0, 3.7, 7.0, 11.3])   # a few ms after a beat line
+        return dict(cls=cls, points=pts, queries=[rng.random() for _ in range(rng.randint(3, 12))])
     if cls == "snapper_only":
         divs = rng.choice([list(rt.DEFAULT_DIVISIONS), [1, 2, 4, 8, 16], [1, 3, 6, 12], [1, 2, 3, 4, 6, 8, 12, 16, 24, 32, 48], [5, 7], [1],
                            [16, 12, 8, 4, 3], [96, 1, 48, 2], [12, 16, 4]])  # the order of the divisions carries no meaning
@@ -162,6 +170,29 @@ def run(ctx, case):
                 pass
         return
 
+    if case["cls"] == "ms_based_off_grid":
+        from reamber.algorithms.timing.utils.BpmChangeOffset import BpmChangeOffset
+
+        pts = case["points"]
+        try:
+            tmo = TimingMap.from_bpm_changes_offset([BpmChangeOffset(bpm=float(v), metronome=4, offset=float(t)) for t, v in pts])
+        except Exception:
+            return
+        span = pts[-1][0] - pts[0][0] + 4 * 60000 / pts[-1][1]
+        qs = [pts[0][0] + q * span for q in case["queries"]]
+        try:
+            with ctx.quiet():
+                back = tmo.offsets(list(tmo.snaps(qs, Snapper())))
+        except Exception as e:
+            return ctx.violate("C10", "c10.roundtrip", "raises", f"offsets(snaps(t)) raised {type(e).__name__}: {e} on a millisecond-based tempo list", dict(points=pts, queries=qs), dict(ms_based=True))
+        for t, u in zip(qs, back):
+            i = max(k for k, (tt, _) in enumerate(pts) if tt <= t)
+            slow = max(60000.0 / pts[j][1] for j in (max(i - 1, 0), i, min(i + 1, len(pts) - 1)))
+            if abs(t - float(u)) > slow / 192 + 1e-6 + 1e-9 * abs(t):
+                return ctx.violate("C10", "c10.roundtrip", "ms_based_within_step", f"offsets(snaps({t})) = {float(u)}: further than 1/192 beat ({slow / 192:.3f} ms) on a millisecond-based tempo list",
+                                   dict(points=pts, query=t, back=float(u)), dict(ms_based=True))
+        ctx.held("c10.roundtrip", "ms_based_within_step", len(qs))
+        return
     initial = case["initial"]
     changes = [(c[0], pf(c[1]), F(c[2]), F(c[3])) for c in case["changes"]]
     truth = rt.RefTiming(F(initial), changes)
